@@ -53,6 +53,31 @@ func init() {
 		json.Unmarshal(raw, &cs)
 		return c10EvalSplits(cs.B, cs.Mode, cs.Mask)
 	}
+	replayers["C10/bytes-around-linefeeds"] = func(c *Ctx, raw json.RawMessage) string {
+		var cs c10case
+		json.Unmarshal(raw, &cs)
+		if d := c10EvalPublic(cs.B); d != "" {
+			return d
+		}
+		for sl := 0; sl <= len(cs.B); sl++ {
+			for _, bnl := range []bool{false, true} {
+				if d := c10EvalEscape(cs.B, sl, bnl); d != "" {
+					return d
+				}
+			}
+		}
+		for mode := 0; mode <= 3; mode++ {
+			for mask := 0; len(cs.B) > 0 && mask < 1<<(len(cs.B)-1); mask++ {
+				if mode >= 2 && mask == 0 {
+					continue
+				}
+				if d := c10EvalSplits(cs.B, mode, mask); d != "" {
+					return d
+				}
+			}
+		}
+		return ""
+	}
 	replayers["C10/long"] = func(c *Ctx, raw json.RawMessage) string {
 		var cs c10case
 		json.Unmarshal(raw, &cs)
@@ -376,6 +401,38 @@ func checkC10(c *Ctx) {
 		var mb buffer.Buffer
 		mb.Write(b)
 		w.SeenS(string(mb.RedactableString()))
+	})
+	// every byte value next to line feeds: the property names line feeds as the ONLY bytes of the payload that may
+	// end up outside the envelopes; a splitter that treats another byte (CR, VT, FF, NEL, ...) as part of a line
+	// break moves it out
+	lfPatterns := []string{"X", "\nX", "X\n", "\nX\n", "a\nX\nb", "aX\nX\nb", "XX\n\nX", "a\n\nX\n\nb", "aX\n"}
+	c.Section("C10/bytes-around-linefeeds", map[string]interface{}{"byte_values": 256, "patterns": lfPatterns, "checks": "escape model at every start offset; EscapeMarkers/EscapeBytes; every split over both ManualBuffer modes"}, 256*len(lfPatterns), func(i int, w *Worker) {
+		x, pat := byte(i/len(lfPatterns)), lfPatterns[i%len(lfPatterns)]
+		b := bytes.ReplaceAll([]byte(pat), []byte("X"), []byte{x})
+		for sl := 0; sl <= len(b); sl++ {
+			for _, bnl := range []bool{false, true} {
+				w.Eval()
+				if d := c10EvalEscape(b, sl, bnl); d != "" {
+					w.Fail("escape-model", c10case{B: b, Q: q(string(b)), StartLoc: sl, BNL: bnl}, d)
+				}
+			}
+		}
+		w.Eval()
+		if d := c10EvalPublic(b); d != "" {
+			w.Fail("public", c10case{B: b, Q: q(string(b))}, d)
+		}
+		for mode := 0; mode <= 3; mode++ {
+			for mask := 0; mask < 1<<(len(b)-1); mask++ {
+				if mode >= 2 && mask == 0 {
+					continue
+				}
+				w.Eval()
+				if d := c10EvalSplits(b, mode, mask); d != "" {
+					w.Fail("splits", c10case{B: b, Q: q(string(b)), Mode: mode, Mask: mask}, d)
+				}
+			}
+		}
+		w.SeenB(b)
 	})
 	// systematic long family (crosses the 64-byte first allocation and the doubling)
 	ins := []string{mStart, mEnd, "\n", "\n\n", "\xe2", "\xe2\x80", "\x80\xb9", mStart + mEnd, "\n" + mStart, mEnd + "\n", "?", mRed}
